@@ -275,6 +275,17 @@ mod verif_deflate_core {
     }
 
     /// No Box / no by-value return of the compressor: moving the 64 KiB inline LZ buffer costs CBMC minutes.
+    /// Same all-zero initial window / hash tables as HashBuffers::default(), but allocated as Box::new([0; N]):
+    /// CBMC constant-folds reads at concrete positions from such an object, and does NOT from the
+    /// vec![0; N].into_boxed_slice().try_into() objects of the real constructor (measured: a loop bounded by such a
+    /// byte unwinds to the bound). The state is identical; only the allocation route differs.
+    macro_rules! concrete_window {
+        ($dict:expr) => {{
+            $dict.b.dict = Box::new([0u8; LZ_DICT_FULL_SIZE]);
+            $dict.b.next = Box::new([0u16; LZ_DICT_SIZE]);
+            $dict.b.hash = Box::new([0u16; LZ_DICT_SIZE]);
+        }};
+    }
     macro_rules! any_compressor {
         () => {{
             let fmt = any_format();
@@ -842,6 +853,7 @@ mod verif_deflate_core {
     fn k_normal_step_distinct() { normal_step_body([1, 2, 3], 0, 3); normal_step_body([1, 2, 3], 2, 2); }
     fn normal_step_body(inb: [u8; 3], la0: usize, inl: usize) {
         let mut d = any_compressor!();
+        concrete_window!(d.dict);
         let flags = d.params.flags;
         kani::assume(flags & TDEFL_FORCE_ALL_RAW_BLOCKS == 0);
         NS_FLAGS.store(flags, RLX);
@@ -860,8 +872,9 @@ mod verif_deflate_core {
         let sl: u32 = kani::any();
         let sd: u32 = kani::any();
         // a carried lazy match was found one position earlier within the lookahead of that time
-        kani::assume(sl == 0 || (sl >= 3 && sl as usize <= la0 + 1 && sd >= 1 && (sd as usize) < size0 + 1 && sd as usize <= NS_CAP.load(RLX)
-            && (flags & TDEFL_RLE_MATCHES == 0) && !d.params.greedy_parsing && (flags & TDEFL_FILTER_MATCHES == 0 || sl >= 6)));
+        // (found by find_match at position pos0-1, where the history was size0-1 bytes; Huffman-only never finds one)
+        kani::assume(sl == 0 || (sl >= 3 && sl as usize <= la0 + 1 && sd >= 1 && (sd as usize) + 1 <= size0 && sd as usize <= NS_CAP.load(RLX)
+            && (flags & TDEFL_RLE_MATCHES == 0) && (flags & MAX_PROBES_MASK != 0) && !d.params.greedy_parsing && (flags & TDEFL_FILTER_MATCHES == 0 || sl >= 6)));
         d.params.saved_match_len = sl;
         d.params.saved_match_dist = sd;
         d.params.saved_lit = kani::any();
@@ -925,6 +938,7 @@ mod verif_deflate_core {
     #[kani::stub(flush_block, model_flush_block_noop)]
     fn k_fast_step() {
         let mut d = any_compressor!();
+        concrete_window!(d.dict);
         let flags = d.params.flags;
         kani::assume(flags & TDEFL_FORCE_ALL_RAW_BLOCKS == 0);
         let cap = 1usize << core::cmp::max(d.params.window_bits_max, 8);
@@ -1115,17 +1129,6 @@ mod verif_deflate_core {
         assert!(dst.len() == src.len(), "OBL:fastcap.copy_from_slice_pre_equal_lengths [C05]");
         let mut i = 0;
         while i < src.len() { dst[i] = src[i]; i += 1; }
-    }
-    /// Same all-zero initial window / hash tables as HashBuffers::default(), but allocated as Box::new([0; N]):
-    /// CBMC constant-folds reads at concrete positions from such an object, and does NOT from the
-    /// vec![0; N].into_boxed_slice().try_into() objects of the real constructor (measured: a loop bounded by such a
-    /// byte unwinds to the bound). The state is identical; only the allocation route differs.
-    macro_rules! concrete_window {
-        ($dict:expr) => {{
-            $dict.b.dict = Box::new([0u8; LZ_DICT_FULL_SIZE]);
-            $dict.b.next = Box::new([0u16; LZ_DICT_SIZE]);
-            $dict.b.hash = Box::new([0u16; LZ_DICT_SIZE]);
-        }};
     }
     const FASTCAP_CONCRETE_SIZE: bool = false;
     /// element-wise re-statements of DictOxide::read_unaligned_u32/u64 (the real ones go through slice -> array
